@@ -71,6 +71,14 @@ theorem srv_set {a : Nat → Option Assoc} (t : Nat) (v : Assoc) (hv : v.client 
   · simp [ht] at hx; subst hx; exact hv hc
   · simp [ht] at hx; exact h t' x hx hc
 
+theorem srv_mark {a : Nat → Option Assoc} (t : Nat)
+    (h : ∀ t' x, a t' = some x → x.client = false → ∃ p, x.nonce = .ofReq p) :
+    ∀ t' x, markObserve a t t' = some x → x.client = false → ∃ p, x.nonce = .ofReq p := by
+  unfold markObserve
+  cases hy : a t with
+  | some y => exact srv_set t _ (fun hc => h t y hy hc) h
+  | none => exact h
+
 /-- one response: the invariant is kept, an own Partial IV is above all those used before, and the nonce of a request
 is only ever taken from an association that belongs to a request received -/
 theorem respond_inv {e : Endp} {U : List Nat} {n : Nat} (g : NInv e U n) (hn : n < 2 ^ 63) (t : Nat) (o s : Bool) :
@@ -114,15 +122,15 @@ theorem respond_inv {e : Endp} {U : List Nat} {n : Nat} (g : NInv e U n) (hn : n
 /-- the protected Echo challenge: a response with `OSCORE_SEND_PARTIAL_IV` -/
 theorem chal_inv {e : Endp} {U : List Nat} {n : Nat} (g : NInv e U n) (hn : n < 2 ^ 63) (t : Nat) :
     NInv (respond e t false true).1
-        (ownsOf (nemit (.chal (match (respond e t false true).2 with | .sent p _ => p | _ => none))) ++ U) (n + 1) ∧
-      (∀ p ∈ ownsOf (nemit (.chal (match (respond e t false true).2 with | .sent p _ => p | _ => none))), ∀ u ∈ U, u < p) ∧
-      (ownsOf (nemit (.chal (match (respond e t false true).2 with | .sent p _ => p | _ => none)))).length ≤ 1 := by
+        (ownsOf (nemit (.chal (chalPiv (respond e t false true).2))) ++ U) (n + 1) ∧
+      (∀ p ∈ ownsOf (nemit (.chal (chalPiv (respond e t false true).2))), ∀ u ∈ U, u < p) ∧
+      (ownsOf (nemit (.chal (chalPiv (respond e t false true).2)))).length ≤ 1 := by
   obtain ⟨h1, h2, h3⟩ := respond_inv g hn t false true
   rcases h3 with h | ⟨p, h⟩ | ⟨q, _, h⟩
   · rw [h] at h1 h2 ⊢
-    exact ⟨by simpa [nemit, ownsOf] using h1, by simp [nemit, ownsOf], by simp [nemit, ownsOf]⟩
+    exact ⟨by simpa [nemit, ownsOf, chalPiv] using h1, by simp [nemit, ownsOf, chalPiv], by simp [nemit, ownsOf, chalPiv]⟩
   · rw [h] at h1 h2 ⊢
-    exact ⟨by simpa [nemit, ownsOf] using h1, by simpa [nemit, ownsOf] using h2, by simp [nemit, ownsOf]⟩
+    exact ⟨by simpa [nemit, ownsOf, chalPiv] using h1, by simpa [nemit, ownsOf, chalPiv] using h2, by simp [nemit, ownsOf, chalPiv]⟩
   · simp at h
 
 /-- one operation of the endpoint -/
@@ -157,8 +165,7 @@ theorem nstep_inv {cfg : Cfg} {e : Endp} {U : List Nat} {n : Nat} (g : NInv e U 
     simp only [nstep]
     -- the associations after the decryption step
     have ha1 : ∀ t' x, (if decrypted cfg e.rcp ev = true then
-        setAssoc e.assocs t (some { nonce := .ofReq ev.piv, observe := (match e.assocs t with | some a => a.observe | none => false),
-                                    client := false })
+        setAssoc e.assocs t (some { nonce := .ofReq ev.piv, observe := keptObserve e.assocs t, client := false })
       else e.assocs) t' = some x → x.client = false → ∃ p, x.nonce = .ofReq p := by
       split
       · exact srv_set t _ (fun _ => ⟨ev.piv, rfl⟩) g.srv
@@ -166,19 +173,18 @@ theorem nstep_inv {cfg : Cfg} {e : Endp} {U : List Nat} {n : Nat} (g : NInv e U 
     by_cases hch : (recv cfg e.rcp ev).2 = .chal
     · rw [if_pos hch]
       have g' : NInv { e with rcp := (recv cfg e.rcp ev).1, assocs := (if decrypted cfg e.rcp ev = true then
-          setAssoc e.assocs t (some { nonce := .ofReq ev.piv, observe := (match e.assocs t with | some a => a.observe | none => false),
-                                      client := false })
+          setAssoc e.assocs t (some { nonce := .ofReq ev.piv, observe := keptObserve e.assocs t, client := false })
         else e.assocs) } U n := ⟨g.sg, ha1⟩
-      exact chal_inv g' hn t
+      obtain ⟨h1, h2, h3⟩ := chal_inv g' hn t
+      exact ⟨⟨h1.sg, srv_erase t h1.srv⟩, h2, h3⟩
     · rw [if_neg hch]
-      refine ⟨⟨g.sg.step, ?_⟩, by simp [nemit, ownsOf], by simp [nemit, ownsOf]⟩
-      dsimp only [nemit, ownsOf, List.nil_append]
       split
-      · split
-        · rename_i a hat
-          exact srv_set t _ (fun hc => ha1 t a hat hc) ha1
-        · exact ha1
-      · exact ha1
+      · exact ⟨⟨g.sg.step, srv_erase t ha1⟩, by simp [nemit, ownsOf], by simp [nemit, ownsOf]⟩
+      · refine ⟨⟨g.sg.step, ?_⟩, by simp [nemit, ownsOf], by simp [nemit, ownsOf]⟩
+        dsimp only [nemit, ownsOf, List.nil_append]
+        by_cases hao : (recv cfg e.rcp ev).2 = .acc ∧ obs = true
+        · rw [if_pos hao]; exact srv_mark t ha1
+        · rw [if_neg hao]; exact ha1
 
 /-- the run: the own Partial IVs of a history are strictly increasing and above everything used before it -/
 theorem nrun_owns (cfg : Cfg) (ops : List NOp) : ∀ (e : Endp) (U : List Nat) (n : Nat), NInv e U n →
@@ -240,6 +246,8 @@ theorem sent_none_ofReq {cfg : Cfg} {e : Endp} (g : ∃ U n, NInv e U n ∧ n < 
     split at h <;> simp at h
   | reqIn t ev obs =>
     simp only [nstep] at h
-    split at h <;> simp at h
+    split at h
+    · simp at h
+    · split at h <;> simp at h
 
 end Coap.Replay
